@@ -426,9 +426,12 @@ def run(facts, tr, rep):
             no_victim = []
             for bb in range(gi.n):
                 sw = gi.switch(bb)
-                if sw is None or sw.kind != "enum" or "None" not in sw.variants or not gi.live(bb):
+                if sw is None or sw.kind != "enum" or not ({"None", "Break"} & set(sw.variants)) or not gi.live(bb):
                     continue
                 nd = tr.expand(tr.place(ins, sw.place, sw.defloc), upvars=True)
+                none_lab = "None" if "None" in sw.variants else "Break"          # (`queue.pop_front()?` answers Break for None)
+                if none_lab == "Break" and not (peel(nd)[0] == "call" and tr.call_of(peel(nd)).def_ == TRY_BRANCH):
+                    continue
 
                 def _on_secondary(x):
                     if not x.args:
@@ -436,7 +439,7 @@ def run(facts, tr, rep):
                     rc = peel(tr.expand(tr.operand(x.g.b, x.args[0], x.loc), upvars=True))
                     return rc[0] == "field" and rc[2] in containers and rc[2] != primary
                 if calls_in(tr, nd, _on_secondary):
-                    no_victim.append((bb, sw.variants["None"]))
+                    no_victim.append((bb, sw.variants[none_lab]))
             r = gi.reach([0], kinds=(N,), avoid_nodes=rm_blocks, avoid_edges=cap_edges + no_victim)
             ok = bool(cap_edges) and c.bb not in r
             rep.ob("C10.CAPACITY", "%s|%s|new-key-insert#%d" % (CRATE, short, nnew - 1), ok, c.where(),
